@@ -221,15 +221,60 @@ def gen_hsic_expl(rng, tier):
 
 def generate(rng, tier):
     scale = 1 if tier == "quick" else 10
-    plan = [(gen_est, 45), (gen_design, 25), (gen_hsic_est, 18), (gen_sobol_expl, 24), (gen_hsic_expl, 14)]
+    plan = [(gen_est, 45), (gen_design, 25), (gen_hsic_est, 18), (gen_sobol_expl, 24), (gen_hsic_expl, 14), (gen_jansen_ill, 12)]
     cases = []
     for f, k in plan:
         cases += [f(rng, tier) for _ in range(k * scale)]
     return cases
 
 
+def gen_jansen_ill(rng, tier):
+    """the default estimator on ill-conditioned outputs: a large offset (mean >> spread), some inert dimensions.
+    The property's own clauses are checked on the implementation: non-negative, EXACTLY zero on inert dimensions,
+    unchanged by the offset (affine invariance) — the literal formula sum((a - c)^2) is stable, an algebraically equal
+    expansion a.a - 2 a.c + c.c is not."""
+    d, n = rng.randint(2, 6), rng.choice([8, 16, 32, 64])
+    ya = [rng.randint(-64, 64) / 64 for _ in range(n)]
+    yb = [rng.randint(-64, 64) / 64 for _ in range(n)]
+    inert = [rng.random() < 0.4 for _ in range(d)]
+    yc = [list(ya) if inert[i] else [rng.randint(-64, 64) / 64 for _ in range(n)] for i in range(d)]
+    return dict(kind="jansen_ill", d=d, n=n, ya=ya, yb=yb, yc=yc, inert=inert, offset=rng.choice([2.0 ** 10, 2.0 ** 14, 2.0 ** 18]),
+                scale=rng.choice([1.0, 0.5, 2.0]), f32=rng.random() < 0.5)
+
+
+def run_jansen_ill(case):
+    from xplique.attributions.global_sensitivity_analysis import JansenEstimator
+    d, n = case["d"], case["n"]
+    masks = np.zeros((n * (d + 2), d), dtype=np.float32)
+
+    def outs(off, sc):
+        o = np.array(case["ya"] + case["yb"] + [v for c in case["yc"] for v in c], dtype=np.float64) * sc + off
+        return o.astype(np.float32).astype(np.float64) if case["f32"] else o
+    est = JansenEstimator()
+    base = np.asarray(est(masks, outs(0.0, 1.0), n), dtype=np.float64).reshape(-1)
+    shifted = np.asarray(est(masks, outs(case["offset"], case["scale"]), n), dtype=np.float64).reshape(-1)
+    return dict(base=base.tolist(), shifted=shifted.tolist())
+
+
+def term_jansen_ill(case, res):
+    base, sh = np.array(res["base"]), np.array(res["shifted"])
+    ok = bool(np.all(sh >= 0.0) and np.all(base >= 0.0))
+    for i, inert in enumerate(case["inert"]):
+        if inert:
+            ok = ok and base[i] == 0.0 and sh[i] == 0.0                    # exactly zero
+    # affine invariance; float32 scores lose the low bits of (offset + small), so the tolerance follows the offset
+    tol = (1e-9 if not case["f32"] else case["offset"] * 2.0 ** -21) * (1.0 + float(np.max(np.abs(base))))
+    ok = ok and bool(np.all(np.abs(sh - base) <= tol))
+    if not ok:
+        return "false"
+    outputs = core.cqlist(case["ya"] + case["yb"] + [v for c in case["yc"] for v in c])
+    return f"lclose {TOL_EST} (jansen {outputs} {case['n']} {case['d']}) {core.cqlist(res['base'])}"
+
+
 def nontrivial(case):
     k = case["kind"]
+    if k == "jansen_ill":
+        return any(case["inert"])
     if k == "est":
         return case["d"] >= 2 and case["n"] >= 3
     if k == "design":
@@ -481,6 +526,8 @@ def run_impl(case):
         res = run_design(case)
     elif k == "hsic_est":
         res = run_hsic_est(case)
+    elif k == "jansen_ill":
+        res = run_jansen_ill(case)
     else:
         res = run_expl(case)
     _finite(res)
@@ -614,6 +661,8 @@ def coq_term(case, res):
         return term_design(case, res)
     if k == "hsic_est":
         return term_hsic_est(case, res)
+    if k == "jansen_ill":
+        return term_jansen_ill(case, res)
     return term_expl(case, res)
 
 
@@ -632,6 +681,9 @@ def dump_term(case, res):
         outs, _ = hsic_checks(case["est"], res)
         return (f"map qdump (let otab := {outs} in hsic_map {gramf_term(case['est'], res)} {ebs_term(case)} {g} "
                 f"{cmat(case['masks'])} (lof_table (tab_L otab) {core.cqlist(res['outs'][0]['y'])}) {n})")
+    if k == "jansen_ill":
+        outputs = core.cqlist(case["ya"] + case["yb"] + [v for c in case["yc"] for v in c])
+        return f"map qdump (jansen {outputs} {case['n']} {case['d']})"
     h, w, c = case["shape"]
     g, n = core.cnat(case["g"]), core.cnat(case["n"])
     geo = f"{g} {core.cnat(h)} {core.cnat(w)} {core.cnat(c)} {bs_term(case)}"
